@@ -314,3 +314,33 @@ def concrete(x, lo, hi):
         if x == v:
             return v
     return hi
+
+
+# ----------------------------------------------------------------------------------------------
+class Stalled(BaseException):
+    """the code under test did not return within its CPU budget (a busy loop); BaseException so that
+    `except Exception` handlers in the code under test cannot swallow it"""
+
+
+class cpu_deadline:
+    """bound the CPU time (not wall time: robust against machine load) of a call into the code under test;
+    raises Stalled inside the block when exceeded.  A path that stalls becomes a counterexample (the replay on
+    plain CPython has to stall too) instead of an inconclusive time-out."""
+
+    def __init__(self, seconds: float = 20.0):
+        self.seconds = seconds
+
+    def __enter__(self):
+        import signal
+
+        def on_alarm(signum, frame):
+            raise Stalled()
+        self._old = signal.signal(signal.SIGVTALRM, on_alarm)
+        signal.setitimer(signal.ITIMER_VIRTUAL, self.seconds)
+        return self
+
+    def __exit__(self, *a):
+        import signal
+        signal.setitimer(signal.ITIMER_VIRTUAL, 0)
+        signal.signal(signal.SIGVTALRM, self._old)
+        return False
